@@ -181,7 +181,7 @@ func (p *process) tryRestart(v any) {
 // gets replaced by a fresh one.
 func (p *process) stopReceiver() {
 	p.context.message = Stopped{}
-	p.context.receiver.Receive(p.context)
+	applyMiddleware(p.context.receiver.Receive, p.Opts.Middleware...)(p.context)
 }
 
 func (p *process) cleanup(cancel context.CancelFunc) {
